@@ -21,6 +21,8 @@ if __name__ == "__main__":
               "setop", sx([4, b">=0.1.1 <1", b"~>2", [b"1.3.3", b"0.5.0"], []]), "C09_union_refuted"))
         print(entry("F-C09-3", "C09", "canon's i++ skips the wrong span after a merge that follows an unmerged neighbour: (`1.0 - 10.2.0-1 || 1 ~1.2`) ∪ `~1` loses the hyphen range and rejects 3.1.10",
               "setop", sx([4, b"1.0 - 10.2.0-1 || 1 ~1.2", b"~1", [b"3.1.10", b"1.5.0"], []]), "C09_union_drop_refuted"))
+        print(entry("F-C09-6", "C09", "the printed form of a result of Union/Intersect can carry ∞ in a lower bound (after inc of the component 9223372036854775806); ParseSetConstraint rejects it, so the public observation route ParseSetConstraint(Set.String()) is undefined on that result (the defect of F-C11-2 seen on results): npm (`<9.2.2 > 0.9223372036854775806`) ∪ `<=1 ^2.2.3` prints {[0.∞.∞:9.2.2)}",
+              "setop", sx([4, b"<9.2.2 > 0.9223372036854775806", b"<=1 ^2.2.3", [b"9.2.2", b"1.0.0"], []]), "C11_inf_lower_refuted"))
     if which == "C11":
         print(entry("F-C11-1", "C11", "NuGet: a bound printed with a fourth component 0 loses it when the printed set is parsed, so the text is not stable: `1.2.3.*` prints {[1.2.3.0:∞.∞.∞.∞)}, which re-parses and prints {[1.2.3:∞.∞.∞.∞)} (membership unchanged)",
               "setrt", sx([5, b"1.2.3.*", [b"1.2.3", b"1.2.3.1"], []]), "C11_nuget_text_refuted"))
